@@ -110,6 +110,10 @@ DESCR = {
                'a task complete in flow 1, run again in flow 2, then reached again by flow 1'),
     'S-C21b': ('rundb.py: public-DB retry counter incremented per failed statement only, not for a failed commit',
                'a reader lock on the public DB (statements succeed, commit fails) held for MAX_TRIES writes'),
+    'S-C20c': ('task_pool.py load_db_task_pool_for_restart: {trigger: message} and [message] branches merged into set_message_complete',
+               'a custom output whose message differs from its trigger, completed by a live job before the scheduler dies or stops, then a restart'),
+    'S-C30c': ('commands.py _remove_matched_tasks: DB clean-up of a dropped child uses the command\'s flow argument (empty = all flows) instead of the flows removed',
+               'a child with recorded history in flow 2, waiting in the pool in flow 1 on the removed parent only, then `cylc remove` without --flow'),
     'S-C48b': ('pathutil.py get_next_rundir_number: run numbers compared as strings when runN is missing',
                'ten or more numbered runs and the latest one cleaned (runN gone), then another install'),
     'S-C42b': ('subprocpool.py put_command: a command refused by a closed pool is also queued',
@@ -127,6 +131,8 @@ DESCR = {
 }
 NOTES = {
     'S-C07b': 'first missed: the generator wrote no suicide triggers; C07 now adds one, on an output no job produces, in a section other than its target\'s (written verbatim, not modelled)',
+    'S-C30c': 'MISSED (seeded in the last half hour, not yet answered): C30 compares pool, prerequisites and the removed task\'s own DB rows; it has no rule on the DB history of a dropped child in flows the removal did not touch. Needed: a workload where the child ran in another flow first, and a rule that task_states/task_outputs rows of other tasks in untouched flows are unchanged by the removal. Only the related test files were run with this patch, not the full suite',
+    'S-C20c': 'only the related test files were run with this patch (182 passed), not the full suite',
     'S-C48b': 'first missed: histories had at most a dozen operations and never ten installs; a share of the histories now starts with 9-12 plain installs',
     'S-C44b': 'first missed: nothing ever loosened an existing private file; after a crash the files left behind are now opened up (chmod go+r) in half of the cases',
     'S-C45b': 'first missed, for two reasons: few runs had two different absolute outputs of one parent (the stop-mode generator now makes them), and the C45-F2 predicate (an earlier instance of the dependent already finished) also matched instances spawned after the output completed, so the seeded violations were filed under the known finding; the predicate now requires the instance to have been pooled before the output completed',
